@@ -2006,7 +2006,19 @@ def _m_get(eng, st, callee, args, ev):
     ln = mk_bin("Sub", hi0, lo0, "usize")
     i = args[1]
     if i[0] == "agg":
-        return NotImplemented
+        # get(range): Some(sub-slice) iff lo <= hi <= len
+        if i[1] != "adt":
+            return NotImplemented
+        bd = _range_bounds(i, ln)
+        if bd is None:
+            return NotImplemented
+        lo, hi = bd
+        cond = mk_and(mk_bin("Le", lo, hi, "usize"), mk_bin("Le", hi, ln, "usize"))
+        if hi is ln or hi == ln:
+            cond = mk_bin("Le", lo, ln, "usize")
+        if is_c(lo) and lo[1] == 0:
+            cond = mk_bin("Le", hi, ln, "usize")
+        return mk_optif(cond, mk_slice(b0, mk_bin("Add", lo0, lo, "usize"), mk_bin("Add", lo0, hi, "usize")))
     return mk_optif(mk_bin("Lt", i, ln, "usize"), ("ref", ("I", b0, mk_bin("Add", lo0, i, "usize"))))
 
 
